@@ -260,14 +260,14 @@ impl CommandAnalyzer {
                 }
                 syn::Item::Struct(item_struct) => {
                     if self.struct_parser.should_include_struct(item_struct) {
-                        let struct_name = item_struct.ident.to_string();
+                        let struct_name = item_struct.ident.unraw().to_string();
                         self.dependency_graph
                             .add_type_definition(struct_name, file_path.to_path_buf());
                     }
                 }
                 syn::Item::Enum(item_enum) => {
                     if self.struct_parser.should_include_enum(item_enum) {
-                        let enum_name = item_enum.ident.to_string();
+                        let enum_name = item_enum.ident.unraw().to_string();
                         self.dependency_graph
                             .add_type_definition(enum_name, file_path.to_path_buf());
                     }
@@ -367,7 +367,7 @@ impl CommandAnalyzer {
                     }
                 }
                 syn::Item::Struct(item_struct) => {
-                    if item_struct.ident == type_name
+                    if item_struct.ident.unraw() == type_name
                         && self.struct_parser.should_include_struct(item_struct)
                     {
                         return self.struct_parser.parse_struct(
@@ -378,7 +378,7 @@ impl CommandAnalyzer {
                     }
                 }
                 syn::Item::Enum(item_enum) => {
-                    if item_enum.ident == type_name
+                    if item_enum.ident.unraw() == type_name
                         && self.struct_parser.should_include_enum(item_enum)
                     {
                         return self.struct_parser.parse_enum(item_enum, file_path);
